@@ -657,7 +657,7 @@ void wantImports(GenOptions &g) { g.imports = true; }
 void wantResets(GenOptions &g) { g.resets = true; g.maxVarsPerComponent = 4; g.maxComponents = 4; }
 void wantConns(GenOptions &g) { g.connections = true; g.maxComponents = 7; }
 void wantUnits(GenOptions &g) { g.maxUnits = 7; }
-void wantMath(GenOptions &g) { g.mathProbability = 0.7; g.resets = true; g.maxComponents = 3; g.maxVarsPerComponent = 3; }
+void wantMath(GenOptions &g) { g.mathProbability = 0.7; g.resets = true; g.maxComponents = 2; g.maxVarsPerComponent = 3; }
 
 // ---------------------------------------------------------------- catalogue: structure (non-math) faults
 void addIdentifierFaults(std::vector<Fault> &cat)
